@@ -135,6 +135,15 @@ def failures(P, R, ld):
         if st:
             rvs[st[0].ev['lhs']['name']] = s
 
+    # ... and what carries that result on (the value a folded sorting helper hands back)
+    grew = True
+    while grew:
+        grew = False
+        for t in ll.stores():
+            if t.ev['k'] == 'store' and is_var(t.ev.get('lhs')) and t.ev.get('op') == '=' and is_var(t.ev.get('rhs')) and t.ev['rhs']['name'] in rvs and t.ev['lhs']['name'] not in rvs:
+                rvs[t.ev['lhs']['name']] = rvs[t.ev['rhs']['name']]
+                grew = True
+
     def on_edge(st, e):
         k = failing(e)
         if k:
